@@ -234,6 +234,15 @@ theorem inRange4_of_nat (n : Nat) (h : n < 2 ^ 31) : InRange 4 (n : Int) := by
   simp only [Nat.reduceMul, Nat.reduceSub, Nat.reducePow, Int.reducePow] at *
   omega
 
+theorem inRange2_of_01 {x : Int} (h : x = 0 ∨ x = 1) : InRange 2 x := by
+  rcases h with h | h <;> subst h <;> (unfold InRange; decide)
+
+theorem inRange2_of_013 {x : Int} (h : x = 0 ∨ x = 1 ∨ x = 3) : InRange 2 x := by
+  rcases h with h | h | h <;> subst h <;> (unfold InRange; decide)
+
+theorem inRange2_of_0123 {x : Int} (h : x = 0 ∨ x = 1 ∨ x = 2 ∨ x = 3) : InRange 2 x := by
+  rcases h with h | h | h | h <;> subst h <;> (unfold InRange; decide)
+
 /-! ### 3. readers on an encoded prefix -/
 
 theorem readN_append (bs rest : Bytes) (a : Nat) :
